@@ -262,27 +262,49 @@ Definition client_forward (c : tctx) (out : thdrs) : option thdrs :=
               end
   end.
 
+(* The client side is a stack too: the traced client (WrapDoer / UnaryClientTrace /
+   StreamClientTrace) composed, in any order, with wrappers that have to be
+   transparent for the request context and the trace headers: goahttp.NewDebugDoer
+   (what the generated CLI puts around the client with -debug), goagrpc.NewInvoker,
+   user interceptors. First = outermost. The context the handler passed travels
+   through every layer unchanged; only the traced layer touches the trace headers. *)
+Inductive client_layer := CTraced | CTransparent.
+
+Fixpoint client_stack (ls : list client_layer) (c : tctx) (out : thdrs) : option thdrs :=
+  match ls with
+  | [] => Some out
+  | CTransparent :: r => client_stack r c out
+  | CTraced :: r => match client_forward c out with
+                    | Some o => client_stack r c o
+                    | None => None
+                    end
+  end.
+
+Definition has_traced (ls : list client_layer) : bool :=
+  existsb (fun l => match l with CTraced => true | CTransparent => false end) ls.
+
 Definition set_inbound (q : treq) (i : thdrs) : treq :=
   {| q_url := q_url q; q_matches := q_matches q; q_trace := fst i; q_parent := snd i;
      q_base := q_base q; q_computed := q_computed q; q_draw := q_draw q;
      q_newtrace := q_newtrace q; q_newspan := q_newspan q |}.
 
 (* one service of a chain: its transport, options, everything about its request
-   except the trace headers (those come from the caller), and the trace headers
-   the handler had put on its own outgoing request before the traced client ran *)
-Record hop := { h_kind : kind; h_opts : trace_opts; h_req : treq; h_out : thdrs }.
+   except the trace headers (those come from the caller), the trace headers the
+   handler had put on its own outgoing request before the client ran, and the
+   client stack it calls the next service through *)
+Record hop := { h_kind : kind; h_opts : trace_opts; h_req : treq; h_out : thdrs; h_client : list client_layer }.
 
 Definition hop_ctx (h : hop) (i : thdrs) : tctx :=
   r_ctx (fst (trace_step (h_kind h) (h_opts h) (new_sampler (h_opts h)) (set_inbound (h_req h) i))).
 
-(* server 1 -> traced client -> server 2 -> ... : the trace headers each server
+(* server 1 -> client stack -> server 2 -> ... : the trace headers each server
    receives and the context each handler runs with *)
 Fixpoint chain (hops : list hop) (i : thdrs) : list (thdrs * tctx) :=
   match hops with
   | [] => []
   | h :: rest =>
     let c := hop_ctx h i in
-    (i, c) :: match client_forward c (h_out h) with
+    (i, c) :: match client_stack (h_client h) c (h_out h) with
               | Some i' => chain rest i'
               | None => []
               end
